@@ -27,6 +27,8 @@ pub struct Wr {
 
 pub struct Inc {
     pub pos: usize,
+    /// cluster this incarnation was started in (a position can change hands, see Cmd::Rehome)
+    pub cluster: usize,
     pub id: Id,
     pub rid: ChitchatId,
     pub ledger: HashMap<(String, u64), Wr>,
@@ -121,6 +123,11 @@ pub struct World {
     pub stats: Stats,
     pub trace: Trace,
     pub known_hits: Vec<String>,
+    /// cluster of the node that runs (or will next be started) at each position
+    pub cluster_now: Vec<usize>,
+    /// KF-3: per cluster, members of the other cluster that got in through a SYN-ACK or ACK
+    /// addressed to a previous occupant of an address (and spread from there)
+    pub kf3_ids: Vec<HashSet<Id>>,
     pub abs_states: HashSet<u64>,
     pub abs_transitions: HashSet<u64>,
     pub nontrivial: HashSet<String>,
@@ -176,6 +183,7 @@ impl World {
         let rt = tokio::runtime::Builder::new_current_thread().enable_time().start_paused(true).build().unwrap();
         let en: HashSet<String> = cfg.enabled.iter().cloned().collect();
         let n = cfg.n;
+        let cluster_now = cfg.cluster_of.clone();
         World {
             cfg,
             en,
@@ -192,6 +200,8 @@ impl World {
             stats: Stats::default(),
             trace: Trace::default(),
             known_hits: Vec::new(),
+            cluster_now,
+            kf3_ids: vec![HashSet::new(); 2],
             abs_states: HashSet::new(),
             abs_transitions: HashSet::new(),
             nontrivial: HashSet::new(),
@@ -249,7 +259,7 @@ impl World {
             self.cfg.seeds.iter().filter(|s| **s != p).map(|s| addr_of(&self.cfg, *s).to_string()).collect();
         let config = ChitchatConfig {
             chitchat_id: rid.clone(),
-            cluster_id: self.cfg.cluster_ids[self.cfg.cluster_of[p]].clone(),
+            cluster_id: self.cfg.cluster_ids[self.cluster_now[p]].clone(),
             gossip_interval: Duration::from_millis(self.cfg.gossip_interval_ms),
             listen_addr: addr,
             seed_nodes: seeds.clone(),
@@ -274,7 +284,9 @@ impl World {
         };
         let watch_rx = chit.live_nodes_watcher();
         let inc_idx = self.incs.len();
+        let cluster = self.cluster_now[p];
         self.incs.push(Inc {
+            cluster,
             pos: p,
             id: id.clone(),
             rid,
@@ -457,7 +469,7 @@ impl World {
                 }
             }
             if let Msg::Syn { cluster, .. } = &msg {
-                if cluster != &self.cfg.cluster_ids[self.cfg.cluster_of[p]] {
+                if cluster != &self.cfg.cluster_ids[self.cluster_now[p]] {
                     return Err(self.viol("C08", "C08.cluster_id", format!("SYN carries cluster id {cluster:?}")));
                 }
             }
